@@ -15,6 +15,9 @@ Streams
                an exception other than ValueError, or an accepted graph that is not the one the text
                describes (independent token-level parser below), is a failing input
   random-text  random texts over the alphabet of the formats
+  labels       hand-written dot and gml files whose node labels are not 1..n (gaps, any order, ten or more, leading zeros,
+               non-numeric names): pydot / networkx parse the file (oracle), cnfgen's own step after them (int() relabelling of
+               dot labels, label sorting, from_networkx) is the model gio_dot_normalize / gio_from_nx / gio_bip_from_nx
   bad-format   formats that are not valid for the graph type
   cli          graph argument "<format> <file>", "<file>" (extension) and "save" of the command line
 """
@@ -265,7 +268,8 @@ def mutate(rng, text, fmt, n_hint):
     lines = text.split('\n')
     body = [i for i, l in enumerate(lines) if l.strip()]
     kind = rng.choice(['drop-token', 'junk-token', 'wrong-count', 'out-of-range', 'blank-line', 'comment-line',
-                       'truncate', 'dup-line', 'swap-lines', 'crlf', 'ws-line', 'glue'])
+                       'truncate', 'dup-line', 'swap-lines', 'crlf', 'ws-line', 'glue',
+                       'comment-odd', 'mixed-eol', 'big-number', 'dup-edge', 'self-loop'])
 
     def pick_line(pred=lambda l: True):
         c = [i for i in body if pred(lines[i])]
@@ -339,6 +343,83 @@ def mutate(rng, text, fmt, n_hint):
         i = pick_line()
         if i is not None and i + 1 < len(lines):
             lines[i] = lines[i] + rng.choice([' ', '']) + lines.pop(i + 1)
+    elif kind == 'comment-odd':
+        # comments where a reader may not expect them: between rows, looking like data, at the end of a data line
+        how = rng.choice(['data-like', 'data-like', 'inline', 'before-size', 'last'])
+        mark = '#' if fmt == 'matrix' else 'c'
+        if how == 'inline':
+            i = pick_line()
+            if i is not None:
+                lines[i] = lines[i] + rng.choice([' ', '\t', '']) + mark + rng.choice(['', ' x', ' 1 2'])
+        else:
+            c = mark + rng.choice([' 1 : 2 0', ' p edge 3 2', ' e 1 2', ' 3', ' 0 1 0', '\t', mark, ':', ' c', ' ' + str(n_hint)])
+            pos = {'data-like': rng.randrange(len(lines) + 1), 'before-size': 0, 'last': len(lines)}[how]
+            lines.insert(pos, c)
+    elif kind == 'mixed-eol':
+        # some lines end with \r\n, some with \n, a lone \r inside a line, a line made of \r only
+        out = []
+        for l in lines:
+            r = rng.random()
+            out.append(l + '\r' if r < 0.4 else (l.replace(' ', ' \r', 1) if r < 0.5 else l))
+        if rng.random() < 0.3:
+            out.insert(rng.randrange(len(out) + 1), '\r')
+        return kind, '\n'.join(out)
+    elif kind == 'big-number':
+        # a vertex number (or the declared size) far beyond the graph; sizes stay small enough to be allocated
+        i = pick_line(lambda l: not l.startswith('c'))
+        if i is None:
+            return kind, text
+        t = lines[i].split(' ')
+        nums = [k for k, x in enumerate(t) if x.isdigit()]
+        if nums:
+            k = rng.choice(nums)
+            is_size = (fmt == 'kthlist' and ':' not in lines[i]) or (fmt == 'dimacs' and lines[i].startswith('p')) or \
+                      (fmt == 'matrix' and i == body[0])
+            big = rng.choice([10 ** 18 + 7, 2 ** 64, 10 ** 30, 123456789012345678901234567890])
+            t[k] = str(rng.choice([20000, 65536, 99999]) if is_size and not (fmt == 'matrix' and n_hint > 0) else big)
+        lines[i] = ' '.join(t)
+    elif kind == 'dup-edge':
+        # the same edge twice (dimacs: the edge count is adjusted half of the time; kthlist: a neighbour repeated in a row)
+        if fmt == 'dimacs':
+            i = pick_line(lambda l: l.startswith('e'))
+            if i is None:
+                return kind, text
+            t = lines[i].split(' ')
+            lines.insert(rng.randrange(i, len(lines) + 1), lines[i] if rng.random() < 0.5 or len(t) != 3 else 'e %s %s' % (t[2], t[1]))
+            if rng.random() < 0.5:
+                for j, l in enumerate(lines):
+                    tp = l.split(' ')
+                    if l.startswith('p') and len(tp) == 4 and tp[3].isdigit():
+                        lines[j] = ' '.join(tp[:3] + [str(int(tp[3]) + 1)])
+        elif fmt == 'kthlist':
+            i = pick_line(lambda l: ':' in l and len(l.split(' ')) > 3)
+            if i is None:
+                return kind, text
+            t = lines[i].split(' ')
+            t.insert(rng.randrange(2, len(t)), rng.choice(t[2:-1]))
+            lines[i] = ' '.join(t)
+        else:
+            return 'dup-line', '\n'.join(lines[:1] + lines)
+    elif kind == 'self-loop':
+        # an edge from a vertex to itself (simple: refused; digraph: kept; dag: refused; bipartite kthlist: refused)
+        if fmt == 'dimacs':
+            v = str(rng.randint(1, max(1, n_hint)))
+            lines.insert(rng.randrange(1, len(lines) + 1) if lines else 0, 'e %s %s' % (v, v))
+            if rng.random() < 0.7:
+                for j, l in enumerate(lines):
+                    tp = l.split(' ')
+                    if l.startswith('p') and len(tp) == 4 and tp[3].isdigit():
+                        lines[j] = ' '.join(tp[:3] + [str(int(tp[3]) + 1)])
+        elif fmt == 'kthlist':
+            i = pick_line(lambda l: ':' in l and not l.startswith('c'))
+            if i is None:
+                return kind, text
+            t = lines[i].split(' ')
+            if t and t[0].isdigit():
+                t.insert(rng.randrange(2, max(3, len(t))), t[0])
+            lines[i] = ' '.join(t)
+        else:
+            return kind, text
     return kind, '\n'.join(lines)
 
 
@@ -613,7 +694,31 @@ def run(ctx):
                        ('dag', 'dimacs', 'p edge 2 1\ne 1 2\n'), ('dag', 'dimacs', 'p edge 2 1\ne 1 1\n'),
                        ('simple', 'dimacs', ''), ('bipartite', 'matrix', ''), ('bipartite', 'matrix', '0 0'), ('bipartite', 'matrix', '2 0\n\n\n'),
                        ('bipartite', 'matrix', '1 2 1 0'), ('bipartite', 'matrix', '1 2\n1 0\n# end\n'), ('bipartite', 'matrix', '1 2\n1 0\n1'),
-                       ('bipartite', 'matrix', '1 2\n1 2\n'), ('simple', 'kthlist', '2\n2 : 1 0\n2\n'), ('simple', 'kthlist', '1 : 0\n1\n')]:
+                       ('bipartite', 'matrix', '1 2\n1 2\n'), ('simple', 'kthlist', '2\n2 : 1 0\n2\n'), ('simple', 'kthlist', '1 : 0\n1\n'),
+                       # self loops, for each type
+                       ('simple', 'dimacs', 'p edge 2 1\ne 1 1\n'), ('digraph', 'dimacs', 'p edge 2 1\ne 1 1\n'),
+                       ('simple', 'kthlist', '2\n1 : 1 0\n'), ('digraph', 'kthlist', '2\n1 : 1 0\n'), ('dag', 'kthlist', '2\n1 : 1 0\n'),
+                       ('bipartite', 'kthlist', '2\n1 : 1 0\n'), ('bipartite', 'kthlist', '2\n1 : 2 0\n2 : 0\n'),
+                       # duplicate edges
+                       ('simple', 'dimacs', 'p edge 2 2\ne 1 2\ne 2 1\n'), ('digraph', 'dimacs', 'p edge 2 2\ne 1 2\ne 1 2\n'),
+                       ('simple', 'dimacs', 'p edge 2 1\ne 1 2\ne 1 2\n'), ('simple', 'kthlist', '3\n3 : 1 1 2 0\n'),
+                       ('simple', 'kthlist', '2\n1 : 2 0\n2 : 1 0\n'), ('bipartite', 'kthlist', '3\n1 : 2 2 3 0\n'),
+                       # very large vertex numbers; large but allocatable sizes
+                       ('simple', 'dimacs', 'p edge 3 1\ne 1 123456789012345678901234567890\n'),
+                       ('simple', 'dimacs', 'p edge 100000 1\ne 1 100000\n'), ('simple', 'kthlist', '100000\n100000 : 1 0\n'),
+                       ('digraph', 'kthlist', '3\n18446744073709551616 : 1 0\n'), ('bipartite', 'kthlist', '1000000\n999999 : 1000000 0\n'),
+                       ('bipartite', 'kthlist', '4\n1 : 340282366920938463463374607431768211456 0\n'),
+                       ('bipartite', 'matrix', '0 100000\n'), ('bipartite', 'matrix', '100000 0\n'), ('bipartite', 'matrix', '1 1\n18446744073709551617\n'),
+                       ('simple', 'kthlist', '-0\n'), ('simple', 'kthlist', '+2\n2 : +1 0\n'), ('simple', 'dimacs', 'p edge 0_2 0_1\ne 1 2\n'),
+                       # comments in odd places, line ends
+                       ('simple', 'kthlist', 'c a\nc b\n2\nc 1 : 2 0\n2 : 1 0\nc\n'), ('simple', 'kthlist', '2\n2 : 1 0 c x\n'),
+                       ('simple', 'kthlist', ' c\n2\n'), ('simple', 'dimacs', 'c\np edge 2 1\nc e 1 2\ne 1 2\nc\n'),
+                       ('simple', 'dimacs', 'p edge 2 1 c\ne 1 2\n'), ('simple', 'dimacs', ' c x\np edge 2 1\n  e 1 2\n'),
+                       ('bipartite', 'matrix', '# a\n1 2\n# b\n1 0\n#\n'), ('bipartite', 'matrix', '1 2 # x\n1 0\n'),
+                       ('bipartite', 'matrix', '1 2\n1 # x\n0\n'), ('bipartite', 'matrix', ' #\n1 1\n1\n'),
+                       ('simple', 'kthlist', '2\r\n2 : 1 0\r\n'), ('simple', 'dimacs', 'p edge 2 1\r\n\r\ne 1 2\r\n'),
+                       ('bipartite', 'matrix', '1 2\r\n1 0\r\n\r\n'), ('simple', 'kthlist', '2\r2 : 1 0\r'), ('simple', 'dimacs', 'p edge 2 1\re 1 2\r'),
+                       ('bipartite', 'kthlist', '3\r\n1 : 2 3 0\r\n\r\n')]:
         cases.append(('fixed-text', ty, fmt, t, None))
     reqs = [cmd('gio_read', has_dot, Sym(ty), Sym(fmt), t) for (_s, ty, fmt, t, _e) in cases]
     reps = ctx.model.batch(reqs)
@@ -665,8 +770,201 @@ def run(ctx):
                               dict(input=dict(graph_type=ty, format=fmt), read=[str(x) for x in r], write=[str(x) for x in w[:2]]), True,
                               site='format-table', cls='unknown-accepted')
 
+    run_labels(ctx, G, quick, has_dot)
     run_cli(ctx, G, quick, has_dot)
     ctx.exhaustive = False
+
+
+# --------------------------------------------------------------------------
+def gen_labels(rng, fmt, k):
+    """k distinct node labels (strings for dot, integers for gml) and the name of the mix"""
+    if fmt == 'gml':
+        mode = rng.choice(['contiguous-from-0', 'gaps', 'gaps', 'large', 'negative'])
+        pool = {'contiguous-from-0': range(0, k), 'gaps': range(0, 60), 'large': range(10 ** 9, 10 ** 9 + 50), 'negative': range(-20, 20)}[mode]
+        labs = rng.sample(list(pool), k)
+        if mode == 'contiguous-from-0' and rng.random() < 0.5:
+            labs.sort()
+        return mode, labs
+    mode = rng.choice(['ints', 'ints', 'ints-wide', 'leading-zero', 'alpha', 'mixed', 'float', 'quoted'])
+    if mode == 'ints':
+        labs = [str(x) for x in rng.sample(range(0, 30), k)]
+    elif mode == 'ints-wide':
+        labs = [str(x) for x in rng.sample([1, 2, 9, 10, 11, 19, 20, 99, 100, 101, 1000, 12345678901234567890, 5, 50, 500], k)]
+    elif mode == 'leading-zero':
+        labs = [str(x) for x in rng.sample(range(1, 15), k)]
+        labs = [('0' * rng.randint(1, 2) + l) if rng.random() < 0.4 else l for l in labs]
+        if k >= 2 and rng.random() < 0.3:
+            labs[0] = '0' + labs[1].lstrip('0')       # the same integer twice: networkx merges the two nodes
+            if labs[0] == labs[1]:
+                labs[0] = '00' + labs[1]
+    elif mode == 'alpha':
+        labs = rng.sample(['a', 'b', 'c', 'n1', 'n2', 'n9', 'n10', 'n11', 'A', 'B', 'x_1', 'x_10', 'x_2', 'zz', 'Z'], k)
+    elif mode == 'mixed':
+        labs = [str(x) for x in rng.sample(range(1, 25), k)]
+        labs[rng.randrange(k)] = rng.choice(['a', 'n3', 'B', 'x_1'])
+    elif mode == 'float':
+        labs = [str(x) for x in rng.sample(range(1, 25), k)]
+        labs[rng.randrange(k)] = rng.choice(['1.5', '2.0', '10.25'])
+    else:
+        labs = ['"%s"' % x for x in rng.sample(['1', '2', '10', '1 0', 'x y', '3', ' 4', '5 ', 'a'], k)]
+    return mode, labs
+
+
+def label_file(rng, ty, fmt):
+    """a hand-written dot / gml file; returns (mix, text)"""
+    k = rng.randint(1, 9) if rng.random() < 0.7 else rng.randint(10, 14)
+    if fmt == 'dot':
+        k = min(k, 9) if rng.random() < 0.5 else k
+    mode, labs = gen_labels(rng, fmt, min(k, 9) if fmt == 'dot' and k > 9 and rng.random() < 0.3 else k)
+    k = len(labs)
+    directed = ty in ('digraph', 'dag')
+    if ty == 'bipartite':
+        side = [0 if rng.random() < 0.5 else 1 for _ in labs]
+        if rng.random() < 0.6:          # left nodes first, as the writers do; else interleaved
+            order = sorted(range(k), key=lambda i: side[i])
+            labs, side = [labs[i] for i in order], [side[i] for i in order]
+        left = [l for l, c in zip(labs, side) if c == 0]
+        right = [l for l, c in zip(labs, side) if c == 1]
+        edges = []
+        for _ in range(rng.randint(0, 2 * k)):
+            if left and right and rng.random() < 0.93:
+                u, v = rng.choice(left), rng.choice(right)
+                edges.append((u, v) if rng.random() < 0.8 else (v, u))
+            elif len(labs) >= 2:
+                edges.append(tuple(rng.sample(labs, 2)))     # may lie inside one side: refused
+    else:
+        side = None
+        edges = []
+        for _ in range(rng.randint(0, 2 * k)):
+            u, v = rng.choice(labs), rng.choice(labs)
+            if u == v and rng.random() < 0.8:
+                continue
+            if ty == 'dag' and rng.random() < 0.8:
+                # mostly increasing in the order the reader is expected to give the labels
+                strs = [str(l).strip('"') for l in labs]
+                numeric = all(x.lstrip('-').isdigit() for x in strs)
+                key = (lambda x: int(str(x).strip('"'))) if numeric else (lambda x: str(x).strip('"'))
+                u, v = sorted([u, v], key=key)
+                if u == v:
+                    continue
+            edges.append((u, v))
+    if fmt == 'dot':
+        strict = rng.random() < 0.7
+        arrow = '->' if directed else '--'
+        out = ['%s%s %s {' % ('strict ' if strict else '', 'digraph' if directed else 'graph', rng.choice(['G', '"a name"', 'g1']))]
+        decl = ['%s%s;' % (l, '' if side is None else ' [bipartite=%d]' % side[i]) for i, l in enumerate(labs)]
+        eds = ['%s %s %s;' % (u, arrow, v) for u, v in edges]
+        body = decl + eds
+        if side is None and rng.random() < 0.3:
+            body = eds + decl                     # nodes first met in an edge keep that position in networkx
+        out += ['  ' + x for x in body] + ['}']
+        return mode, '\n'.join(out) + '\n'
+    out = ['graph [', '  name "G"', '  directed %d' % (1 if directed else 0)]
+    for i, l in enumerate(labs):
+        out.append('  node [ id %d label "v%d"%s ]' % (l, i, '' if side is None else ' bipartite %d' % side[i]))
+    seen = set()
+    for u, v in edges:
+        kk = (u, v) if directed else (min(u, v), max(u, v))
+        if kk in seen:
+            continue                               # a repeated edge needs `multigraph 1` in GML
+        seen.add(kk)
+        out.append('  edge [ source %d target %d ]' % (u, v))
+    out.append(']')
+    return mode, '\n'.join(out) + '\n'
+
+
+def run_labels(ctx, G, quick, has_dot):
+    """cnfgen's own step after the dot / gml parsers, on labels that are not 1..n"""
+    import networkx
+    rng = ctx.rng
+    jobs, reqs = [], []
+    fmts = ['dot', 'gml'] if has_dot else ['gml']
+    for _ in range(90 if quick else 900):
+        ty = rng.choice(TYPES)
+        fmt = rng.choice(fmts)
+        mode, text = label_file(rng, ty, fmt)
+        ctx.tally('labels mix', '%s:%s' % (fmt, mode))
+        # the parser alone (oracle): node labels in networkx order, attributes, edges
+        try:
+            if fmt == 'dot':
+                import contextlib
+                with contextlib.redirect_stdout(io.StringIO()):
+                    P = networkx.nx_pydot.read_dot(io.StringIO(text))
+                if '\\n' in P:
+                    P.remove_node('\\n')
+            else:
+                P = networkx.read_gml((l.encode('ascii') for l in io.StringIO(text)), label='id')
+        except Exception as e:  # noqa
+            P = None
+            perr = type(e).__name__
+        got = impl_read(G, text, ty, fmt)
+        inp = dict(text=text, graph_type=ty, format=fmt, labels=mode)
+        ctx.count('labels', (ty, fmt, text), True, sample=dict(graph_type=ty, format=fmt, labels=mode, text=text[:300]))
+        ctx.tally('labels verdict', fmt + ':' + (got[1] if got[0] == 'exc' else 'graph'))
+        if got[0] == 'exc' and got[1] != 'ValueError':
+            ctx.disagreements_checked += 1
+            ctx.violation('counterexample', 'readGraph raised %s (not ValueError) on a %s file' % (got[1], fmt),
+                          dict(input=inp, implementation=list(got)), True, site=fmt + '-reader', cls='raises-' + got[1])
+            continue
+        if P is None:
+            ctx.tally('labels skipped', 'parser raised ' + perr)
+            continue
+        nodes = list(P.nodes())
+        edges = [[u, v] for (u, v) in P.edges()]
+        if directed_mismatch(P, ty):
+            ctx.tally('labels skipped', 'graph kind of the file differs from the type')
+            continue
+        if ty == 'bipartite':
+            cols = [P.nodes[u].get('bipartite') for u in nodes]
+            if any(c not in ('0', '1', 0, 1) for c in cols):
+                ctx.tally('labels skipped', 'node without side')
+                continue
+            pairs = [[u, int(c)] for u, c in zip(nodes, cols)]
+            if fmt == 'dot':
+                reqs.append(cmd('gio_dot_bip_norm', P.name, pairs, edges))
+            else:
+                reqs.append(cmd('gio_bip_from_nx_int', P.name, pairs, edges))
+        elif fmt == 'dot':
+            reqs.append(cmd('gio_dot_norm', Sym(KIND[ty]), P.name, nodes, edges))
+            reqs.append(cmd('gio_dot_norm_as_found', Sym(KIND[ty]), P.name, nodes, edges))
+            jobs.append((inp, ty, fmt, got, 2))
+            continue
+        else:
+            reqs.append(cmd('gio_from_nx_int', Sym(KIND[ty]), P.name, nodes, edges))
+        jobs.append((inp, ty, fmt, got, 1))
+    reps = ctx.model.batch(reqs)
+    k = 0
+    for (inp, ty, fmt, got, n) in jobs:
+        mine = reps[k:k + n]
+        k += n
+        r = mine[0]
+        if is_error(r):
+            ctx.violation('correspondence', 'model error', dict(input=inp, model=r), False, site='model-error', cls='labels')
+            continue
+        if ty == 'bipartite' and fmt == 'gml':
+            mod = model_outcome(r)
+        elif r is None or r == 'none':
+            ctx.tally('labels skipped', 'outside the model (merged labels / dangling edge)')
+            continue
+        else:
+            mod = dag_filter(ty, model_outcome(r[1]))
+        if verdict_eq(got, mod, names=False):
+            continue
+        ctx.disagreements_checked += 1
+        rec = dict(input=inp, implementation=list(got), model=list(mod), correspondence='GraphIO.v gio_dot_normalize / gio_from_nx <-> readGraph/' + fmt)
+        if n == 2 and mine[1] not in (None, 'none') and not is_error(mine[1]):
+            af = dag_filter(ty, model_outcome(mine[1][1]))
+            if verdict_eq(got, af, names=False):
+                # numeric labels are sorted as strings again: D9
+                ctx.violation('counterexample', 'dot file with numeric labels: the vertices are numbered in the string order of the labels, not in their numeric order',
+                              dict(rec, model_as_found=list(af)), True, site='dot-roundtrip', cls='renumbered-n>=10')
+                continue
+        ctx.violation('correspondence', 'graph read from a %s file differs from the model of label normalisation + from_networkx' % fmt,
+                      rec, False, site=fmt + '-labels', cls='model-differs')
+
+
+def directed_mismatch(P, ty):
+    return P.is_directed() != (ty in ('digraph', 'dag'))
 
 
 # --------------------------------------------------------------------------
